@@ -13,9 +13,9 @@ MD = dict(ND, VP_EXPAND_MODEL=None)
 
 def bitmap_jobs(tier):
     J = []
-    J.append(Job('bitmap.expand[bounded<=3 pushes]', H, 'h_expand', enforce='bitmap_expand',
-                 defines=dict(ND, VP_EXPAND_BOUND=3), unwind=20, kind='bounded', timeout=900,
-                 bound='bitmap_expand adds at most 3 words (a loop with realloc inside has no CBMC-expressible invariant)'))
+    # bitmap_expand itself (a loop of VARR_push) is not machine-checked against models/bitmap_expand.h: a loop
+    # whose body reallocates has no CBMC-expressible invariant and its bounded unwinding ran the back ends out of
+    # memory; VARR_push/expand are proved (varr*.push, varr*.expand).  Listed as an assumption in the evidence.
     J.append(Job('bitmap.bit_p', H, 'h_bit_p', enforce='bitmap_bit_p', defines=ND, unwind=20))
     J.append(Job('bitmap.clear_bit_p', H, 'h_clear_bit_p', enforce='bitmap_clear_bit_p', defines=ND, unwind=20))
     J.append(Job('bitmap.set_bit_p', H, 'h_set_bit_p', enforce='bitmap_set_bit_p', defines=MD, ops=EXPAND_MODEL,
@@ -76,4 +76,5 @@ META = {
     'functions': [],
     'undecided_part': '',
     'trusted_base': ['models/alloc.h', 'models/libc.h', 'models/bitmap_expand.h'],
+    'assumptions': ['models/bitmap_expand.h stands for the real bitmap_expand in the proofs of its callers; the real body (a loop of VARR_push, each push proved under contract) is not checked against that model'],
 }
